@@ -4,6 +4,7 @@ import (
 	"bytes"
 	"fmt"
 	"math/big"
+	"strings"
 
 	"github.com/nspcc-dev/neo-go/pkg/util"
 	"github.com/nspcc-dev/neo-go/pkg/vm/stackitem"
@@ -169,6 +170,7 @@ func runC05(b *runner.Batch) {
 	if b.Thorough() {
 		nops = 80
 	}
+	var freed []string
 	for i := 0; i < nops && b.NViolations() == 0; i++ {
 		r := b.Rng
 		if r.IntN(6) == 0 {
@@ -178,13 +180,29 @@ func runC05(b *runner.Batch) {
 				e.setFee("ContainerAliasFee", runner.Pick(r, feePool))
 			}
 		}
+		// now and then a named container is deleted: its domain stays registered and free for reuse
+		if r.IntN(5) == 0 {
+			for _, k := range sortedKeys(e.m.live) {
+				if c := e.m.live[k]; c.alias != "" && strings.HasSuffix(c.alias, ".container") {
+					e.doDelete(c.cid, 0)
+					freed = append(freed, strings.TrimSuffix(c.alias, ".container"))
+					break
+				}
+			}
+		}
 		o := e.genPut(2)
 		if r.IntN(10) < 8 {
 			o.signers, o.alpha, o.sdesc = alpha, true, "alphabet"
 		}
+		reused := false
 		if o.kind == "putnamed" {
-			// mostly fresh names so that the fee, not the name, decides
-			if r.IntN(4) != 0 {
+			// mostly fresh names so that the fee, not the name, decides; sometimes a freed, still registered domain
+			switch {
+			case len(freed) > 0 && r.IntN(2) == 0:
+				o.name, o.zone = freed[len(freed)-1], ""
+				freed = freed[:len(freed)-1]
+				reused = true
+			case r.IntN(4) != 0:
 				e.seq++
 				o.name = fmt.Sprintf("n%d-%d", b.Index, e.seq)
 			}
@@ -213,6 +231,9 @@ func runC05(b *runner.Batch) {
 		payDecides := e.predictPutIgnoringBalance(o)
 		e.doPut(o, "C05")
 		pr := e.w.History[before]
+		if reused && pr.Halted() {
+			b.Hit("paid-put:named-reusing-a-freed-domain")
+		}
 		if total > 0 && o.alpha && payDecides {
 			switch {
 			case class == "total-1" && !pr.Halted():
